@@ -73,10 +73,35 @@ def run(ctx):
     rootn = P + "Server::new"
     engn, retn, stn, frn = ctx.root(rootn)
     atn = ctx.fn(rootn).loc
-    ins = [e for e in Q.calls(engn, "BTreeMap::<K, V, A>::insert") if e["frame"] == frn.key]
-    okreg = len(ins) == 1 and Q.params(Q.leaves(ins[0]["argv"][1])) == {"mds.*"}
+    # the registered map has exactly one entry per element of `mds`, keyed by that element: either one insert per
+    # iteration of a loop over all of mds, or mds.iter().map(|md| (md, ..)).collect() into the map
+    okreg = False
+    found = "?"
+    okn_ = ok_variant(retn, 0)
+    mdv = None
+    if okn_ is not None and okn_[2][0].op == "agg":
+        pk_ = okn_[2][0].args[1 + ipk]
+        if pk_.op == "agg":
+            mdv = pk_.args[1 + fidx(ctx, "ppoprf::ppoprf::ServerPublicKey", "md_pks")]
+    if mdv is not None and mdv.op == "phi":
+        from ..terms import PHI
+        inc = list((PHI.get(mdv.args[0]) or {}).values())
+        news = [v for v in inc if v.op == "coll_new"]
+        insv = [v for v in inc if v.op == "map_insert" and v.args[0] is mdv]
+        if len(news) == 1 and len(insv) == 1 and len(inc) == 2:
+            keyt = insv[0].args[1]
+            kel = Q.find_all(keyt, lambda t: t.op == "elem")
+            src = Q.traversal_of(engn, kel[0]) if len(kel) == 1 else None
+            okreg = src is not None and Q.path_of(src) == "mds" and Q.params(Q.leaves(keyt)) == {"mds.*"}
+            found = "insert per iteration, key %s" % S(keyt, 3)
+    elif mdv is not None and mdv.op == "collected" and mdv.args[0].op == "mapped":
+        pair = mdv.args[0].args[1]
+        src = Q.whole_of(mdv.args[0].args[0], engn)
+        okreg = pair.op == "agg" and pair.args[0] == "tuple" and len(pair.args) == 3 and \
+            Q.params(Q.leaves(pair.args[1])) == {"mds.*"} and src is not None and Q.path_of(src) == "mds"
+        found = "collected pairs, key %s" % S(pair.args[1] if pair.op == "agg" else pair, 3)
     ctx.add("C14.R2", rootn + "#registers-given-tags", okreg,
-            "Server::new must insert one public key entry per given tag; found %s" % [S(e["argv"][1], 3) for e in ins], atn)
+            "Server::new must register one public key entry per given tag, keyed by that tag; found %s" % found, atn)
     okn = ok_variant(retn, 0)
     if okn is not None and okn[2][0].op == "agg":
         srv = okn[2][0]
